@@ -70,7 +70,8 @@ def rule_union(ck: Check, repo: Repo) -> None:
     # the existing header handed to create_header is the block that was found
     far = repo.func(f"{HD}.find_and_replace_header")
     src = re.sub(r"\s+", " ", ast.unparse(far))
-    ok = "before, header, after = _find_first_spdx_comment(text, style=style)" in src and \
+    ok = ("before, header, after = _find_first_spdx_comment(text, style=style)" in src
+          or "before, header, after = _find_first_spdx_comment(text, style)" in src) and \
         "except MissingReuseInfoError: before, header, after = ('', '', text)" in src
     r.instance("found-header", {"ok": ok})
     if not ok:
